@@ -1,4 +1,135 @@
-import FiddleModel.Model.Graph
+/-
+C15 — select() hits exactly the matching nodes; replace keeps the rest intact.
+
+Model: `Model/Select.lean` over heaps (`selectIds`, `Heap.setOn`, `Heap.replaceRefs`,
+`tagValues`). The matching rule itself (`Matcher.matches`: callable equality, subclass
+matching, Buildable type) is compared with `NodeSelection._matches` by the correspondence
+check; the theorems hold for every node predicate `p`, so they cover every matching rule.
+The order in which a selection yields its nodes is not part of the property and not modelled.
+`.replace(v, deepcopy=True)` inserts a separate copy of `v` at each reference; the model
+substitutes the value `v` itself (the `deepcopy=False` behaviour) and the correspondence check
+compares modulo the identity of the inserted copies.
+-/
+import FiddleModel.Lemmas.SelectL
+
 namespace Fiddle
-theorem C15_placeholder : True := trivial
+
+/-- `select(cfg, F)` yields exactly the reachable Buildables that match ... -/
+theorem C15_select_exact (h : Heap) (wf : h.WellFormed) (hd : h.PathsDistinct) (i : Nat)
+    (hi : i < h.length) (p : GObj → Bool) (j : Nat) :
+    j ∈ selectIds h (.ref i) p ↔
+      ReachA h i j ∧ ∃ o, h[j]? = some o ∧ o.kind = .cfg ∧ p o = true := by
+  simp only [selectIds, List.mem_filter, mem_reachableIds h wf hd i hi]
+  constructor
+  · rintro ⟨hr, hm⟩
+    cases ho : h[j]? with
+    | none => simp [ho] at hm
+    | some o =>
+      simp only [ho, Bool.and_eq_true, beq_iff_eq] at hm
+      exact ⟨hr, o, rfl, hm.1, hm.2⟩
+  · rintro ⟨hr, o, ho, hk, hp⟩
+    exact ⟨hr, by simp [ho, hk, hp]⟩
+
+/-- ... each exactly once. -/
+theorem C15_select_once (h : Heap) (root : GVal) (p : GObj → Bool) :
+    (selectIds h root p).Nodup :=
+  (reachableIds_nodup h root).sublist List.filter_sublist
+
+/-- `.set(**kw)`: nodes outside the selection are untouched ... -/
+theorem C15_set_frame (h : Heap) (ids : List Nat) (kvs : List (PElem × GVal)) (k : Nat)
+    (hk : k ∉ ids) : (h.setOn ids kvs)[k]? = h[k]? := by
+  rw [setOn_get]
+  cases h[k]? with
+  | none => rfl
+  | some o => simp [hk]
+
+/-- ... and on a selected node every given attribute holds its new value (the last one given
+    for that name), every other argument keeps its value, and callable, type, signature and
+    tags stay as they were. -/
+theorem C15_set_assigns (h : Heap) (ids : List Nat) (kvs : List (PElem × GVal)) (k : Nat)
+    (hk : k ∈ ids) (o : GObj) (ho : h[k]? = some o) :
+    ∃ o', (h.setOn ids kvs)[k]? = some o' ∧ o'.kind = o.kind ∧ o'.ty = o.ty ∧ o'.bk = o.bk ∧
+      o'.sig = o.sig ∧ o'.tags = o.tags ∧
+      ∀ q, lk o'.children q = (lk kvs.reverse q).or (lk o.children q) := by
+  refine ⟨{ o with children := upsertAll o.children kvs }, ?_, rfl, rfl, rfl, rfl, rfl, ?_⟩
+  · rw [setOn_get, ho]; simp [hk]
+  · intro q; exact lk_upsertAll kvs o.children q
+
+/-- `.replace(v)`: every object keeps its index (identity), kind, callable, Buildable type,
+    signature, tags, and the keys under which its children are stored — its place in the
+    graph. -/
+theorem C15_replace_keeps_nodes (h : Heap) (ids : List Nat) (v : GVal) (k : Nat) (o : GObj)
+    (ho : h[k]? = some o) :
+    ∃ o', (h.replaceRefs ids v)[k]? = some o' ∧ o'.kind = o.kind ∧ o'.ty = o.ty ∧
+      o'.bk = o.bk ∧ o'.sig = o.sig ∧ o'.tags = o.tags ∧ o'.defaults = o.defaults ∧
+      o'.children.map (·.1) = o.children.map (·.1) := by
+  refine ⟨{ o with children := o.children.map (replaceChild ids v) }, ?_, rfl, rfl, rfl, rfl,
+    rfl, rfl, ?_⟩
+  · rw [replaceRefs_get, ho]; rfl
+  · simp only [List.map_map]
+    apply List.map_congr_left
+    intro c _
+    obtain ⟨pe, cv⟩ := c
+    cases cv with
+    | atom t => simp [replaceChild]
+    | ref j => by_cases hj : j ∈ ids <;> simp [replaceChild, hj]
+
+/-- ... a reference to a matching node is substituted by `v`, at every place it occurs ... -/
+theorem C15_replace_substitutes (ids : List Nat) (v : GVal) (pe : PElem) (j : Nat)
+    (hj : j ∈ ids) : replaceChild ids v (pe, .ref j) = (pe, v) := by
+  simp [replaceChild, hj]
+
+/-- ... and every other argument is left exactly as it was. -/
+theorem C15_replace_keeps_others (ids : List Nat) (v : GVal) (c : PElem × GVal)
+    (hc : ∀ j, c.2 = .ref j → j ∉ ids) : replaceChild ids v c = c := by
+  unfold replaceChild
+  cases hc2 : c.2 with
+  | atom t => rfl
+  | ref j => simp [hc j hc2]
+
+/-- After the replacement no object refers to a matching node any more (provided the new
+    value is not itself one). -/
+theorem C15_replace_complete (h : Heap) (ids : List Nat) (v : GVal)
+    (hv : ∀ j, v = .ref j → j ∉ ids) (k : Nat) (o' : GObj)
+    (ho : (h.replaceRefs ids v)[k]? = some o') (c : PElem × GVal) (hc : c ∈ o'.children)
+    (j : Nat) (hj : c.2 = .ref j) : j ∉ ids := by
+  rw [replaceRefs_get] at ho
+  cases hk : h[k]? with
+  | none => simp [hk] at ho
+  | some o =>
+    simp only [hk, Option.map_some, Option.some.injEq] at ho
+    subst ho
+    simp only [List.mem_map] at hc
+    obtain ⟨c0, _, rfl⟩ := hc
+    unfold replaceChild at hj
+    cases h0 : c0.2 with
+    | atom t => simp [h0] at hj
+    | ref j0 =>
+      simp only [h0] at hj
+      by_cases hin : j0 ∈ ids
+      · simp [hin] at hj; exact hv j hj
+      · simp [hin, h0] at hj; subst hj; exact hin
+
+/-- Iterating a tag selection: the argument's value if set, else the parameter's default,
+    else NO_VALUE. -/
+theorem C15_tag_iteration_value (sub : Nat → Nat → Bool) (T : Nat) (o : GObj) (k : Key)
+    (hk : k ∈ taggedKeys sub T o) :
+    (k, (lk o.children (pelemOfKey k)).or (lk o.defaults (pelemOfKey k))) ∈ tagValues sub T o := by
+  simp only [tagValues, List.mem_map]
+  refine ⟨k, hk, ?_⟩
+  simp only [lk]
+  cases (o.children.find? (fun c => c.1 == pelemOfKey k)) <;> simp
+
+/-! ## Non-vacuity -/
+
+private def g : Heap :=
+  [ { kind := .cfg, ty := "f", bk := "Config", children := [(.attr "x", .atom "1")] },
+    { kind := .list, children := [(.index 0, .ref 0), (.index 1, .ref 0)] },
+    { kind := .cfg, ty := "g", bk := "Config", children := [(.attr "a", .ref 1), (.attr "b", .ref 0)] } ]
+
+example : g.WellFormed ∧ g.PathsDistinct ∧ selectIds g (.ref 2) (fun o => o.ty == "f") = [0] ∧
+    ((g.replaceRefs [0] (.atom "V"))[1]?).map (·.children) =
+      some [(.index 0, .atom "V"), (.index 1, .atom "V")] :=
+  ⟨Heap.wellFormed_of_B g (by decide), Heap.pathsDistinct_of_B g (by decide), by decide, by decide⟩
+
 end Fiddle
